@@ -5,6 +5,8 @@ import (
 	"math/big"
 
 	"github.com/taurusgroup/multi-party-sig/pkg/party"
+	"github.com/taurusgroup/multi-party-sig/protocols/doerner"
+	"github.com/taurusgroup/multi-party-sig/verif/adv"
 	"github.com/taurusgroup/multi-party-sig/verif/fx"
 	"github.com/taurusgroup/multi-party-sig/verif/ref"
 	"github.com/taurusgroup/multi-party-sig/verif/sim"
@@ -39,6 +41,10 @@ func c08Cases(env vk.Env) []vk.Case {
 	for i := 0; i < env.Pick(10, 150); i++ {
 		i := i
 		cs = append(cs, vk.Case{ID: fmt.Sprintf("doerner/%d", i), Run: func(t *vk.T) { c08History(t, "doerner", 2, 1, i, env) }})
+	}
+	for i := 0; i < env.Pick(6, 60); i++ {
+		i := i
+		cs = append(cs, vk.Case{ID: fmt.Sprintf("doerner-cancel/%d", i), Run: func(t *vk.T) { c08DoernerCancel(t, i) }})
 	}
 	cmps := []nt{{3, 1}, {2, 1}, {3, 2}}
 	if env.Thorough() {
@@ -101,7 +107,7 @@ func c08History(t *vk.T, proto string, n, th, rep int, env vk.Env) {
 	hist := ""
 	refreshes := 0
 	for step := 0; step < maxLen; step++ {
-		ops := []string{"refresh", "refresh", "restore", "derive", "sign"}
+		ops := []string{"refresh", "refresh", "restore", "derive", "sign", "aborted-refresh"}
 		op := ops[r.Intn(len(ops))]
 		if step == 0 || (step == maxLen-1 && refreshes == 0) {
 			op = "refresh"
@@ -138,6 +144,47 @@ func c08History(t *vk.T, proto string, n, th, rep int, env vk.Env) {
 			}
 			key = cur.Shares()[0].GroupKey
 		case "sign":
+			c08Sign(t, r, cur, nil, 0, key, tag, proto, n, th)
+		case "aborted-refresh":
+			if proto == "cmp" && !env.Thorough() && refreshes > 0 {
+				continue
+			}
+			// a refresh in which the messages of round k and later are lost: nobody completes, and the material the
+			// parties hold (the very same objects) must be exactly as usable as before
+			final := map[string]int{"frost": 3, "frost-taproot": 3, "doerner": 3, "cmp": 5}[proto]
+			from := 2 + r.Intn(final-1)
+			before := secretsOf(cur)
+			o := opt()
+			o.Prepare = func(nn *sim.Net) {
+				nn.OnDeliver = func(_ *sim.Net, d *sim.Delivery) []*sim.Delivery {
+					if d.Round >= from || d.Round == 0 {
+						return nil
+					}
+					return []*sim.Delivery{d}
+				}
+			}
+			var rerr error
+			if p, fr, txt := vk.Guard(func() { _, rerr = cur.Refresh(r, o) }); p {
+				t.Violation(proto+"|aborted-refresh-panic|"+fr, "%s: %s", tag, txt)
+				return
+			}
+			if rerr == nil {
+				if n > 1 {
+					t.Inconclusive("%s: refresh completed although rounds >= %d were dropped", tag, from)
+				}
+				continue // a single party has no messages to lose
+			}
+			t.Obs("aborted_refreshes", 1)
+			t.Distinct("%s|n=%d|t=%d|aborted-refresh-from-round-%d", proto, n, th, from)
+			for id, sec := range secretsOf(cur) {
+				if before[id].Cmp(sec) != 0 {
+					t.Violation(proto+"|aborted-refresh-changed-share", "%s: the share of %q changed although the refresh (messages of round >= %d lost) never completed", tag, id, from)
+				}
+			}
+			if f, _ := fx.CheckMaterial(r, cur.Shares(), &key, 20); len(f) > 0 {
+				t.Violation(proto+"|after-aborted-refresh|"+f[0][0], "%s (rounds >= %d lost): %s", tag, from, f[0][1])
+				return
+			}
 			c08Sign(t, r, cur, nil, 0, key, tag, proto, n, th)
 		case "refresh":
 			old, err := cur.Snapshot()
@@ -299,4 +346,82 @@ func c08Sign(t *vk.T, r *vk.Rand, cur, stale fx.Mat, k int, key ref.Pt, tag, pro
 		}
 	}
 	_ = sim.State
+}
+
+// c08DoernerCancel: a peer that answers the other party's refresh contribution with the same value (so that the two
+// cancel) must not be able to leave the honest party's share unchanged by a "successful" refresh.
+func c08DoernerCancel(t *vk.T, i int) {
+	r := t.Rng
+	ids := fx.IDs(r, i%4, 2)
+	dm, err := fx.NewDoernerMat(r, ids[0], ids[1], fx.Opt{SessionID: r.Bytes(4)})
+	if err != nil {
+		t.Violation("doerner|keygen-failed", "%v", err)
+		return
+	}
+	old := secretsOf(dm)
+	var senderScalar []byte
+	o := fx.Opt{SessionID: r.Bytes(4)}
+	o.Prepare = func(nn *sim.Net) {
+		nn.OnDeliver = func(_ *sim.Net, d *sim.Delivery) []*sim.Delivery {
+			m := sim.Decode(d.Bytes)
+			root, err := adv.Decode(m.Data)
+			if err != nil {
+				return []*sim.Delivery{d}
+			}
+			mm, ok := root.(map[interface{}]interface{})
+			if !ok {
+				return []*sim.Delivery{d}
+			}
+			if d.From == dm.K.SID && d.Round == 2 {
+				if b, ok := mm["RefreshScalar"].([]byte); ok {
+					senderScalar = append([]byte{}, b...)
+				}
+			}
+			if d.From == dm.K.RID && d.Round == 2 && senderScalar != nil {
+				if _, ok := mm["RefreshScalar"]; ok {
+					mm["RefreshScalar"] = senderScalar // the corrupted receiver echoes the sender's contribution
+					if nb, err := adv.Encode(mm); err == nil {
+						m.Data = nb
+						if wb, err := m.MarshalBinary(); err == nil {
+							c := *d
+							c.Bytes = wb
+							c.Tag = "refresh-scalar-echoed"
+							t.Obs("tampered_refresh_messages", 1)
+							return []*sim.Delivery{&c}
+						}
+					}
+				}
+			}
+			return []*sim.Delivery{d}
+		}
+	}
+	n, outs, err := fx.RunTwo(r, dm.K.RID, dm.K.SID, doerner.RefreshReceiver(dm.K.R, dm.K.RID, dm.K.SID, nil), doerner.RefreshSender(dm.K.S, dm.K.SID, dm.K.RID, nil), true, false, o)
+	_ = n
+	if err != nil {
+		t.Inconclusive("refresh start: %v", err)
+		return
+	}
+	t.Obs("evaluations", 1)
+	t.Distinct("doerner|refresh-with-echoing-peer|%d", i%4)
+	for _, oc := range outs {
+		if oc.ID != dm.K.SID {
+			continue
+		}
+		t.Obs("echoing_peer|honest_sender_"+oc.State, 1)
+		if oc.Err != nil && oc.State == "failed" {
+			e := oc.Err.Error()
+			if len(e) > 60 {
+				e = e[:60]
+			}
+			t.Obs("echoing_peer|error|"+e, 1)
+		}
+		if c, ok := oc.Value.(*doerner.ConfigSender); ok {
+			if fx.IntOf(c.SecretShare).Cmp(old[string(dm.K.SID)]) == 0 {
+				t.Violation("doerner|refresh-cancelled-by-peer", "a receiver that echoed the sender's refresh contribution completed the refresh and left the honest sender's share unchanged")
+			}
+		}
+	}
+	if i == 0 {
+		t.Sample(map[string]any{"kind": "doerner refresh against a peer echoing the refresh scalar", "sender_state": fx.Describe(outs)})
+	}
 }
